@@ -296,4 +296,52 @@ theorem decodeSpec_old_indep_orig (old old' : Layer) (data : Bytes) (hp : old.pa
   · simp [h]
   · simp only [h, if_false]; exact decodeSpecL_old_indep_orig old old' data _ _ hp
 
+/-! ## Address fields of a decoded layer (C17) -/
+
+theorem take_drop_take (xs : Bytes) (L a n : Nat) (h : a + n ≤ L) :
+    ((xs.take L).drop a).take n = (xs.drop a).take n := by
+  rw [List.drop_take, List.take_take]
+  congr 1; omega
+
+theorem specBody_addrs (rp : Bool) (l1 : Layer) (I : Nat) (d : Bytes) (t : Bool)
+    (herr : (specBody rp l1 I d t).err = false) :
+    (specBody rp l1 I d t).layer.srcIP = (d.drop 12).take 4 ∧
+    (specBody rp l1 I d t).layer.dstIP = (d.drop 16).take 4 := by
+  unfold specBody at herr ⊢
+  by_cases he : (parseOpts (I * 4 - 20 + 1) ((d.drop 20).take (I * 4 - 20)) []).err = true
+  · simp [he] at herr
+  · simp [he]
+
+theorem decodeSpec_addrs (rp : Bool) (old : Layer) (data : Bytes) (herr : (decodeSpec rp old data).err = false) :
+    (decodeSpec rp old data).layer.srcIP = (data.drop 12).take 4 ∧
+    (decodeSpec rp old data).layer.dstIP = (data.drop 16).take 4 ∧ 20 ≤ data.length := by
+  unfold decodeSpec at herr ⊢
+  by_cases h : data.length < 20
+  · simp [h] at herr
+  · simp only [h, if_false] at herr ⊢
+    unfold decodeSpecL at herr ⊢
+    generalize (if Gp.be16 (getB data 2) (getB data 3) = 0 then data.length % 65536
+      else Gp.be16 (getB data 2) (getB data 3)) = L at herr ⊢
+    generalize (getB data 0).toNat % 16 = I at herr ⊢
+    by_cases c1 : L < 20
+    · simp [c1] at herr
+    by_cases c2 : I < 5
+    · simp [c1, c2] at herr
+    by_cases c3 : I * 4 > L
+    · simp [c1, c2, c3] at herr
+    by_cases c4 : data.length > L
+    · simp only [c1, c2, c3, c4, if_true, if_false] at herr ⊢
+      have := specBody_addrs rp _ I _ false herr
+      rw [take_drop_take _ _ _ _ (by omega), take_drop_take _ _ _ _ (by omega)] at this
+      exact ⟨this.1, this.2, by omega⟩
+    by_cases c5 : data.length < L
+    · by_cases c6 : I * 4 > data.length
+      · simp [c1, c2, c3, c4, c5, c6] at herr
+      · simp only [c1, c2, c3, c4, c5, c6, if_true, if_false] at herr ⊢
+        have := specBody_addrs rp _ I _ true herr
+        exact ⟨this.1, this.2, by omega⟩
+    · simp only [c1, c2, c3, c4, c5, if_false] at herr ⊢
+      have := specBody_addrs rp _ I _ false herr
+      exact ⟨this.1, this.2, by omega⟩
+
 end Gp.Ip4
